@@ -43,7 +43,7 @@ SYSUPTIME = (1, 3, 6, 1, 2, 1, 1, 3, 0)
 TRAPOID = (1, 3, 6, 1, 6, 3, 1, 1, 4, 1, 0)
 LISTEN_IP = "10.0.0.1"
 EVENT_BUDGET = 1_000_000   # counted work for one whole run (<= 80 arrivals at ~3k events each, callbacks included)
-MINIMISE_EXECS = 80
+MINIMISE_EXECS = 40
 KINDS = ["int", "str", "null", "oid", "ip", "c32", "g32", "tt", "opaque", "c64"]
 
 
